@@ -435,6 +435,7 @@ Definition dense_rules : list frule :=
   [ mkFR "nil" [("info", 1)] [("info", 1)] []; mkFR "nil" [("info", 2)] [("info", 2)] [];
     mkFR "nil" [("info", 3)] [("info", 3)] []; mkFR "nil" [("info", 4)] [("info", 4)] [];
     mkFR "nil" [("info", 5)] [("info", 5)] []; mkFR "nil" [("info", 6)] [("info", 6)] [];
+    mkFR "empty" [("msg", 1); ("msg", 5); ("msg", 8); ("msg", 9); ("msg", 10)] [] ["before:error"];
     mkFR "error" [("msg", 1)] [] [];
     mkFR "nil" [("msg", 5)] [("info", 1); ("info", 2); ("info", 3); ("info", 4); ("info", 5); ("info", 6)] [];
     mkFR "error" [("msg", 8)] [] []; mkFR "error" [("msg", 9)] [] [];
@@ -490,6 +491,11 @@ Definition dense_fixup_t (s : dcols * dfound) : result dcols :=
                      (k ("info", 4) (c_uids ic)) (k ("info", 5) (c_usids ic)) (k ("info", 6) (c_visibles ic)))
                (c_lats dc) (c_lons dc) (k ("msg", 10) (c_keyvals dc)))
   end.
+
+(* "empty" rules placed before the mandatory-column errors: none of the listed columns present = return nil *)
+Definition dense_empty_t (fd : dfound) : bool :=
+  existsb (fun r => String.eqb (fr_kind r) "empty" && existsb (String.eqb "before:error") (fr_info r)
+                    && forallb (fun f => negb (dflag fd (snd f))) (fr_flags r)) dense_rules.
 
 (* "use" rules: the flags that must all be set *)
 Definition use_flags (rules : list frule) (what : string) : list Z :=
